@@ -208,7 +208,7 @@ int main(int argc, char** argv) {
     run.setDeadline(900, 3000);
     const bool thorough = run.thorough();
     std::vector<long> vsets; if (thorough) for (long v = 0; v < 3; ++v) vsets.push_back(v); else vsets.push_back(((run.seed % 3) + 3) % 3);
-    run.rule = "E3: scenes = tree {Pin-Pin, Slider-Gimbal (thorough + Pin-Translation)} x obstacle lists of length 0..2 (thorough 3) over {Sphere, Cylinder, Ellipsoid, Torus} x "
+    run.rule = "E3: scenes = tree {Pin-Pin, Slider-Gimbal (thorough + Pin-Translation)} x obstacle lists of length 0..2 (thorough 3: first value set, first two trees, tight accuracy) over {Sphere, Cylinder, Ellipsoid, Torus} x "
                "body assignment {all Ground, (B1,Ground,B2) (thorough + (B2,B1,B1))} x {no via / via point on B1 / origin on B1} x CableSpan algorithm {MinimumLength, Scholz2015} "
                "x accuracy {tight, library default}; each scene carries a CableSpan and a CablePath+CableSpring over the same obstacles; poses = 2 x 7 (thorough 3 x 11) lattice of "
                "the tree coordinates moving the termination point across touchdown / lift-off; velocities = every unit generalized speed + one generic vector; a case = (scene, pose); "
@@ -234,7 +234,7 @@ int main(int argc, char** argv) {
         for (long vs : vsets) for (int tree = 0; tree < (thorough ? 3 : 2); ++tree) for (auto& l : lists) for (int as = 0; as < (thorough ? 3 : 2); ++as) for (int var = 0; var < 3; ++var)
             for (int alg = 0; alg < 2; ++alg) for (int tol = 0; tol < 2; ++tol) {
                 if (l.empty() && (as > 0 || alg > 0 || tol > 0)) continue;         // no obstacle: these dimensions are void
-                if (l.size() == 3 && (tol == 1 || (var == 2 && as == 2))) continue; // thorough triples: tight accuracy only
+                if (l.size() == 3 && (tol == 1 || (var == 2 && as == 2) || vs != vsets[0] || tree == 2)) continue; // thorough triples: tight accuracy, first value set, first two trees
                 SceneSpec sp; sp.tree = tree; sp.obstacles = l; sp.assign = as; sp.variant = var; sp.algorithm = alg; sp.tol = tol; sp.vs = vs; scenes.push_back(sp);
             }
     }
@@ -471,6 +471,9 @@ int main(int argc, char** argv) {
                 // power balance: forces actually applied, dotted with the body velocities
                 Vector_<SpatialVec> F = forcesFor(sv, T); double pw = 0;
                 for (MobilizedBodyIndex b(0); b < sc.matter.getNumBodies(); ++b) pw += ~F[b] * sc.matter.getMobilizedBody(b).getBodyVelocity(sv);
+                if (run.verbose) { fprintf(stderr, "  u#%d: lengthDot=%.15g calcCablePower=%.15g sum F.V=%.15g -T*Ldot=%.15g vs=%.3g\n", k, Ld, P, pw, -T * Ld, vs);
+                    if (nVia) { SpatialVec fv; sc.span.calcViaPointUnitForce(sv, CableSpanViaPointIndex(0), fv); fprintf(stderr, "      via unit force %s in %s out %s\n", s3(fv[1]).c_str(),
+                        s3(Vec3(sc.span.calcViaPointIncomingTangentDirection(sv, CableSpanViaPointIndex(0)))).c_str(), s3(Vec3(sc.span.calcViaPointOutgoingTangentDirection(sv, CableSpanViaPointIndex(0)))).c_str()); } }
                 run.residual("span-cable-power-is-applied-forces-times-velocities", std::abs(P - pw) / (T * (vs + 1)), 1e-13, where);
                 run.residual("span-power-balance-minus-tension-times-length-rate", std::abs(pw + T * Ld) / (T * (3 * eps * vs + 1e-12 * (1 + vs))), 10.0, [&] { return desc + " u#" + std::to_string(k) + " power=" + sd(pw) + " -T*Ldot=" + sd(-T * Ld); });
                 run.outcome(verif::hashPod(Ld, verif::hashPod(L)));
